@@ -56,7 +56,10 @@ Inductive ccase :=
 | CbTrace (chained : bool) (last : beacon) (bs : list beacon) (obs : list cbev)
 (* crash at cp, restart, and then the NEXT DKG output (epoch e) is stored in the same key folder by a
    fresh key store: what the group file and the share read back as *)
-| LaterSave (run : list pop) (cp : crashpt) (e : Z) (g s : fload).
+| LaterSave (run : list pop) (cp : crashpt) (e : Z) (g s : fload)
+(* a REAL DrandDaemon started on the snapshot: what LoadBeaconFromStore did with the beacon id.
+   class 0 = fresh (waits for a DKG), 1 = running with group ge / share se, 2 = refused (error) *)
+| DaemonRestart (run : list pop) (cp : crashpt) (class ge se : Z).
 
 Definition cbev_eqb (a b : cbev) : bool :=
   match a, b with
@@ -88,6 +91,12 @@ Definition ok (c : ccase) : bool :=
       let ip := sh_save_in_place crash_shape in
       let st := apply_ops (crash cp run empty_state) (save_file ip KGroup e ++ save_file ip KShare e) in
       fload_eqb (load_file (gfile st)) g && fload_eqb (load_file (sfile st)) s
+  | DaemonRestart run cp class ge se =>
+      match node_restart (crash cp run empty_state) with
+      | RFresh => class =? 0
+      | RRunning g s => (class =? 1) && (ge =? g) && (se =? s)
+      | _ => class =? 2
+      end
   | CbTrace chained last bs obs =>
       cbevs_eqb (cb_attempts (sh_cb_write_first crash_shape) chained last bs) obs
   end.
